@@ -12,7 +12,7 @@ cd coq
 for f in link/*_link.v; do
   p=$(basename $f _link.v)
   if timeout 600 coqc -R theories Lerax -Q gen/$p LeraxGen -w -notation-overridden gen/$p/GenK_$p.v > /tmp/link_$p.log 2>&1 && \
-     timeout 900 coqc -R theories Lerax -Q gen/$p LeraxGen -w -notation-overridden $f >> /tmp/link_$p.log 2>&1; then
+     timeout 900 coqc -R theories Lerax -Q gen/$p LeraxGen -Q link LeraxLink -w -notation-overridden $f >> /tmp/link_$p.log 2>&1; then
     echo "link $p ok ($(grep -c '^ *Theorem' $f) theorems)"
   else
     echo "link $p FAILS"; tail -6 /tmp/link_$p.log; rc=1
